@@ -74,7 +74,9 @@ SrvCodec(cfg, sproto, ccodec) ==
     IF sproto = "rest" THEN "json"
     ELSE IF ccodec \in Range(cfg.codecs) THEN ccodec ELSE cfg.codecs[1]
 
-SrvComp(cfg, ccomp) == IF ccomp # "" /\ ccomp \in Range(cfg.comps) THEN ccomp ELSE ""
+\* "identity" is the explicit name of no compression
+NormComp(c) == IF c = "identity" THEN "" ELSE c
+SrvComp(cfg, ccomp) == IF NormComp(ccomp) # "" /\ ccomp \in Range(cfg.comps) THEN ccomp ELSE ""
 
 ClientCodec(cl) == IF cl.form = "rest" THEN "json" ELSE cl.codec
 
@@ -127,7 +129,7 @@ ClientAcceptable(scn) ==
     LET cp == ProtoOf(scn.cl.form) IN
     /\ cp \in Range(scn.cfg.protos)
     /\ ClientCodec(scn.cl) \in (IF cp = "rest" THEN {"json"} ELSE Range(scn.cfg.codecs))
-    /\ scn.cl.comp = "" \/ scn.cl.comp \in Range(scn.cfg.comps)
+    /\ NormComp(scn.cl.comp) = "" \/ scn.cl.comp \in Range(scn.cfg.comps)
 
 PassThru(scn) == ~Rejected(scn) /\ ClientAcceptable(scn)
 
@@ -407,13 +409,46 @@ DispCanon(d) == <<d.kind, d.http, d.major, d.path, d.form, d.codec, d.enc, d.bad
 ClientCanon(c) == <<c.status, c.ct, c.enc, c.clen >= 0, c.bodylen = 0, c.extraheads, c.problems, SeqOf(c.frames, FrameCanon),
                     c.rest, c.end, c.ends, c.after, c.lost>>
 
-C08(scn, obs) ==
+\* the comparison with the reference run, tagged by what the reference is:
+\*   chunk   (C08) the same scenario with one read and one write
+\*   history (C15) the same RPC on a freshly built Transcoder
+\*   solo    (C14) the same RPC running alone
+\*   schema  (C20) the same RPC with the schema registered from the reference source
+RefPrefix(kind) == CASE kind = "chunk" -> "C08" [] kind = "history" -> "C15" [] kind = "solo" -> "C14" [] OTHER -> "C20"
+
+RefCompare(scn, obs) ==
     IF ~obs.ref.has THEN {} ELSE
-      (IF obs.ret.n = obs.ref.ret.n THEN {} ELSE {"C08.SameDispatches"})
+    LET px == RefPrefix(obs.ref.kind) IN
+      (IF obs.ret.n = obs.ref.ret.n THEN {} ELSE {px \o ".SameDispatches"})
       \cup (IF obs.ret.n = obs.ref.ret.n /\ SeqOf(obs.disp, DispCanon) # SeqOf(obs.ref.disp, DispCanon)
-            THEN {"C08.BackendSeesSameRequest"} ELSE {})
-      \cup (IF ClientCanon(obs.cl) = ClientCanon(obs.ref.cl) THEN {} ELSE {"C08.ClientSeesSameResponse"})
-      \cup (IF obs.ret.panic = obs.ref.ret.panic THEN {} ELSE {"C08.SamePanic"})
+            THEN {px \o ".BackendSeesSameRequest"} ELSE {})
+      \cup (IF ClientCanon(obs.cl) = ClientCanon(obs.ref.cl) THEN {} ELSE {px \o ".ClientSeesSameResponse"})
+      \cup (IF obs.ret.panic = obs.ref.ret.panic THEN {} ELSE {px \o ".SamePanic"})
+
+(***************************************************************************)
+(* Buffer-pool protocol on the recorded hook events of a shared            *)
+(* Transcoder (the observable half of Pool.tla): a buffer that is in the   *)
+(* pool is not released again; the pool only hands out buffers it holds.   *)
+(***************************************************************************)
+MaxRecycle == 8388608       \* buffers above 8 MiB are dropped, not pooled
+RECURSIVE PoolFaults(_, _, _)
+PoolFaults(events, k, inPool) ==
+    IF k > Len(events) THEN {}
+    ELSE LET e == events[k] IN
+         CASE e.ev = "put" ->
+                (IF e.buf \in inPool THEN {"DoublePut"} ELSE {})
+                \cup PoolFaults(events, k + 1, IF e.cap > MaxRecycle THEN inPool ELSE inPool \cup {e.buf})
+           [] e.ev = "get" ->
+                (IF e.buf \in inPool THEN {} ELSE {"GetOfLiveBuffer"})
+                \cup PoolFaults(events, k + 1, inPool \ {e.buf})
+           [] OTHER -> PoolFaults(events, k + 1, inPool)
+
+PoolSound(scn, obs) ==
+    IF obs.pool = <<>> THEN {} ELSE
+    LET px == IF obs.ref.has /\ obs.ref.kind = "history" THEN "C15" ELSE "C14" IN
+    {px \o ".Pool" \o f : f \in PoolFaults(obs.pool, 1, {})}
+
+C08(scn, obs) == RefCompare(scn, obs) \cup PoolSound(scn, obs)
 
 (***************************************************************************)
 (* C19: GET is accepted and issued only for side-effect-free methods.      *)
